@@ -23,20 +23,20 @@ func init() {
 }
 
 func runC05(c *core.Ctx) {
-	ruleRecursionGuards(c)
-	ruleFlagGuards(c)
-	ruleLimitTable(c)
-	rulePanicTable(c)
-	ruleStreamsClosed(c)
-	ruleRefLimits(c, "C05-R4")
-	rulePeekDiscardPre(c)
-	ruleDepthDiscipline(c)
-	ruleBudgetCharged(c)
-	ruleUncheckedAssertions(c)
-	ruleVisitedMonotone(c)
-	ruleNoObjStmFromObjStm(c)
-	ruleCyclePathCumulative(c)
-	ruleFileValueAsKeyOrSize(c)
+	c.Guard(func() { ruleRecursionGuards(c) })
+	c.Guard(func() { ruleFlagGuards(c) })
+	c.Guard(func() { ruleLimitTable(c) })
+	c.Guard(func() { rulePanicTable(c) })
+	c.Guard(func() { ruleStreamsClosed(c) })
+	c.Guard(func() { ruleRefLimits(c, "C05-R4") })
+	c.Guard(func() { rulePeekDiscardPre(c) })
+	c.Guard(func() { ruleDepthDiscipline(c) })
+	c.Guard(func() { ruleBudgetCharged(c) })
+	c.Guard(func() { ruleUncheckedAssertions(c) })
+	c.Guard(func() { ruleVisitedMonotone(c) })
+	c.Guard(func() { ruleNoObjStmFromObjStm(c) })
+	c.Guard(func() { ruleCyclePathCumulative(c) })
+	c.Guard(func() { ruleFileValueAsKeyOrSize(c) })
 }
 
 // call graph -----------------------------------------------------------------
@@ -748,6 +748,18 @@ func rulePanicTable(c *core.Ctx) {
 	c.Check(rule, "pdf/panics", "every explicit panic in package pdf is in the reviewed table (a new panic on the read path would turn a malformed file into a crash)", func(o *core.Ob) {
 		pkg := c.Prog.Pkg("pdf")
 		n := 0
+		// a reviewed function that no longer exists under its name was renamed, split or removed: the table cannot
+		// be matched against the tree then, and a panic outside the table is not known to be new
+		gone := ""
+		present := map[string]bool{}
+		for _, fn := range c.Prog.Funcs(pkg) {
+			present[fn.Key] = true
+		}
+		for key := range c05Panics {
+			if !present[key] && (gone == "" || key < gone) {
+				gone = key
+			}
+		}
 		for _, fn := range c.Prog.Funcs(pkg) {
 			info := fn.Info()
 			for _, cs := range core.CallsIn(info, fn.Decl, true) {
@@ -757,6 +769,10 @@ func rulePanicTable(c *core.Ctx) {
 				n++
 				o.At(fn.Site(cs.Call, "panic"))
 				if _, ok := c05Panics[fn.Key]; !ok {
+					if gone != "" {
+						o.Unrec("panic in %s is not in the reviewed table, and the reviewed function %s no longer exists under that name", fn.Key, gone)
+						continue
+					}
 					// write-side or programmer-error panics in functions that cannot be reached from parsing are accepted when the function is not reachable from the read API; we require review instead
 					o.FailAt(fn.Site(cs.Call, ""), "panic in %s is not in the reviewed table", fn.Key)
 				}
@@ -1820,7 +1836,7 @@ func ruleNoObjStmFromObjStm(c *core.Ctx) {
 					continue
 				}
 				for i := 0; i < sig.Params().Len() && i < len(cs.Call.Args); i++ {
-					if sig.Params().At(i).Name() != "canObjStm" {
+					if core.VarName(sig.Params().At(i)) != "canObjStm" {
 						continue
 					}
 					n++
